@@ -31,7 +31,7 @@ type ArmorMut struct {
 
 var armorMutKinds = []string{"none", "linedrop", "linedup", "lineswap", "linesplit", "linejoin", "byteflip", "bytesub", "trunc",
 	"crlf_all", "crlf_some", "cr_only", "ws_before", "ws_after", "ws_lines_before", "garbage_before", "garbage_after", "pem_header",
-	"pad_move", "pad_strip", "pad_extra", "lower_header", "space_eol", "empty_line", "no_final_lf", "dup_footer", "wrong_type", "short_mid", "long_line", "blanks_in_begin_line", "blanks_in_end_line"}
+	"pad_move", "pad_strip", "pad_extra", "lower_header", "space_eol", "empty_line", "no_final_lf", "dup_footer", "wrong_type", "short_mid", "long_line", "blanks_in_begin_line", "blanks_in_end_line", "stride65"}
 
 func genArmorMut(r *core.RNG) ArmorMut {
 	m := ArmorMut{Kind: armorMutKinds[r.Intn(len(armorMutKinds))], I: r.Intn(1000), J: r.Intn(1000), B: r.Intn(256)}
@@ -40,6 +40,8 @@ func genArmorMut(r *core.RNG) ArmorMut {
 		m.N = r.Pick(1, 2, 10, 1021, 1022, 1023, 1024, 1025, 1026, 2000)
 	case "blanks_in_begin_line", "blanks_in_end_line":
 		m.N = r.Pick(1, 2, 63, 64, 127, 128, 129, 256, 384, 896, 1024, 4096)
+	case "stride65":
+		m.N = r.Range(0, 11)
 	default:
 		m.N = r.Range(1, 5)
 	}
@@ -135,6 +137,21 @@ func applyArmorMut(text string, m ArmorMut) string {
 			pre = "\n \n"
 		}
 		return pre + strings.Repeat(blank, m.N) + text
+	case "stride65":
+		// short and empty body lines laid out so that a line end still falls on every 65th byte of the body (where the
+		// line ends of full lines are): five 12-column lines; a 60-column line and four empty ones; 32- and 31-column
+		// lines in turn. Inserted in front of the body, one to three times.
+		if n < 2 {
+			return text
+		}
+		q := "QUJD"
+		block := []string{
+			strings.Repeat(strings.Repeat(q, 3)+"\n", 5),
+			strings.Repeat(q, 15) + "\n\n\n\n\n",
+			strings.Repeat(strings.Repeat(q, 8)+"\n"+strings.Repeat(q, 8)[:31]+"\n", 4),
+			"\n\n\n\n" + strings.Repeat(q, 15) + "\n",
+		}[m.N%4]
+		return lines[0] + strings.Repeat(block, 1+m.N/4) + join(lines[1:])
 	case "blanks_in_end_line":
 		if n == 0 {
 			return text
